@@ -308,6 +308,10 @@ def run(P, R, tier):
     _mp = pol.Pol(P, _mf, track_inv=True)
     _inv = sorted({x for s_, a in _mp.value_terms() for x in a if x.startswith("1/")})
     R.check(not _inv, "POL.mult-along-axis", _mf.key, "mult_along_axis(A, B, axis) returns A * B broadcast along the axis", "", f"{_inv[:2]} divide(s) in mult_along_axis")
+    from ..engines import proto as _prd
+    for nm_ in ['_compute_latent_x_per_class', '_compute_fn_x_ih', '_compute_fn_z_i', '_compute_fn_y_i', '_compute_fn_x', 'compute_latent_x', 'update_z', 'update_y', 'estimate_x', 'estimate_ux']:
+        if P.func('factor_analysis:FactorAnalysisBase.' + nm_, required=False) is not None:
+            _prd.check_return_deps(P, R, 'factor_analysis:FactorAnalysisBase.' + nm_)
 
 
 EXPLANATION += ' Also: (ACC.sum) accumulators are summed over classes / sessions; (POL.acc-placement) every factor of A1 / A2 multiplies; (OPT); (IDX.class-select); (COVER.reduce_iadd / COVER.pairs) per-class accumulators are folded whole; (DTYPE.raw).'
